@@ -27,6 +27,8 @@ pub fn pool() -> Vec<(&'static str, Value, bool)> {
         ("f1", Value::scalar(1.0f64), true),
         ("f2", Value::scalar(2.0f64), true),
         ("f15", Value::scalar(1.5f64), true),
+        ("fneg0", Value::scalar(-0.0f64), true),
+        ("nan", Value::scalar(f64::NAN), false),
         ("s1", Value::scalar("1"), true),
         ("s10", Value::scalar("10"), true),
         ("s2", Value::scalar("2"), true),
